@@ -29,6 +29,9 @@ if mods:
         'LbzVerif.Props.C01.Mtf.doMtf_eq_spec',
         'LbzVerif.Props.C01.Prefix.decode_encode',
         'LbzVerif.Props.C04.collect_pack',
+        'LbzVerif.Props.C01.Prefix.assign_eq_canon',
+        'LbzVerif.Props.C01.Transmit.parse_transmit',
+        'LbzVerif.Props.C01.Transmit.len_mod8',
     ])
 inproc.run_libs(ck, ['w10_mtf', 'w11_prefix', 'w16_transmit'])
 exe = ck.build_lbzip2(asan=False)
